@@ -28,9 +28,9 @@ STR = r'"(?:\\.|[^"\\])*"'
 
 def extract(g, X):
     cl = X.cl
-    font = X.strip_comments(X.read("pdf/src/font.rs"))
-    lexer = X.strip_comments(X.read("pdf/src/parser/lexer/mod.rs"))
-    strl = X.strip_comments(X.read("pdf/src/parser/lexer/str.rs"))
+    font = X.source("pdf/src/font.rs")
+    lexer = X.source("pdf/src/parser/lexer/mod.rs")
+    strl = X.source("pdf/src/parser/lexer/str.rs")
 
     # ---- lexer/mod.rs: white-space and delimiter classes used by Lexer::next_word -------------------
     B, iv = X.BYTE, X.int_value
@@ -88,7 +88,7 @@ def extract(g, X):
               "font: lexer/str.rs:HexStringLexer::next_hex_byte", hexranges)
 
     # ---- parser/mod.rs: which first lexemes start a string / an array ----------------------------------------
-    parser = X.strip_comments(X.read("pdf/src/parser/mod.rs"))
+    parser = X.source("pdf/src/parser/mod.rs")
 
     def starts():
         b = X.fn_body(parser, "_parse_with_lexer_ctx")
